@@ -45,6 +45,37 @@ func init() {
 	}
 }
 
+// c20ClientHistory: one client object asks for several origins in a row, long names before short ones; every request
+// is for a registered origin, must be served, and has the size its own block count determines.
+func c20ClientHistory(c *Ctx, r *Rng) {
+	names := []string{"news.example.org/a/rather/long/path/that/needs/two/blocks", "news.example.org", "news.example", "n", "", "news.example.org/a/rather/long/path/that/needs/two/blocks", "x.example"}
+	out := c.Op("c03.probe c20.client-history", func() string {
+		env := newT3Env(1, names...)
+		cl := type3.NewRateLimitedClientFromSecret(r.Bytes(48))
+		for i, n := range names {
+			st, err := cl.CreateTokenRequest([]byte("challenge"), r.Bytes(32), r.Bytes(48), env.issuer.TokenKeyID(), env.issuer.TokenKey(), n, env.issuer.NameKey())
+			if err != nil {
+				return fmt.Sprintf("request %d (%q): creation failed", i, n)
+			}
+			enc := st.Request().Marshal()
+			blocks := max(1, (len(n)+31)/32)
+			if len(enc) != 2+49+32+2+32+1+256+2+32*blocks+16+96 {
+				return fmt.Sprintf("request %d (%q): %d bytes on the wire, not the size of %d block(s)", i, n, len(enc), blocks)
+			}
+			resp, _, err := env.issuer.Evaluate(enc)
+			if err != nil {
+				return fmt.Sprintf("request %d of one client, for the registered origin %q, was refused (%v)", i, n, err)
+			}
+			if _, err := st.FinalizeToken(resp); err != nil {
+				return fmt.Sprintf("request %d (%q): the response does not finalize", i, n)
+			}
+		}
+		return "-"
+	})
+	c.Count("e2e:client-history")
+	c.Direct(out == "-", "several requests from one client object: "+out, nil)
+}
+
 func runC20(c *Ctx) {
 	r := NewRng(c.Seed, "c20")
 	maxLen := c.Pick(1100, 20000)
@@ -113,6 +144,7 @@ func runC20(c *Ctx) {
 		want := strings.TrimRight(string(b), "\x00")
 		c.Direct(got == want, "unpad does not strip exactly the trailing zero bytes", map[string]any{"b": hx(b)})
 	}
+	c20ClientHistory(c, r)
 	// end to end: sizes by block count, registered vs similar names
 	lens := []int{0, 1, 14, 31, 32, 33, 63, 64, 65, 100, 255, 256, 1000}
 	if c.Thorough() {
@@ -121,8 +153,18 @@ func runC20(c *Ctx) {
 		}
 		lens = append(lens, 4096, 20000, 65000)
 	}
-	for _, n := range lens {
+	wide := []byte("abcdefghijklmnopqrstuvwxyzABCDEFGHIJKLMNOPQRSTUVWXYZ0123456789.-_/ ")
+	for li, n := range lens {
 		name := mkName(n, 0)
+		if li%2 == 1 {
+			// both cases, digits, dots, and (every fourth) a trailing dot: names are opaque strings
+			for k := range name {
+				name[k] = wide[r.IntN(len(wide)-1)]
+			}
+			if li%4 == 3 && n > 0 {
+				name[n-1] = '.'
+			}
+		}
 		regs := [][]byte{name}
 		o := c.Run("c20.e2e", hx(name), hxList(regs))
 		c.Count("e2e:registered")
